@@ -6,7 +6,8 @@
 """
 import os, sys, json, subprocess, shutil, re, time
 
-V = '/verif'
+V = os.environ.get('VERIF_HOME', '/verif')
+REPO = os.environ.get('VERIF_REPO', '/repo')      # run: the checkout the patch is applied to (a scratch worktree when seeds are run in parallel copies)
 SEEDED = os.path.join(V, 'seeded')
 
 
@@ -58,11 +59,11 @@ def run(seed):
     d = os.path.join(SEEDED, seed)
     m = load_meta(seed)
     prop = m['property']
-    rc, out = sh('git -C /repo status --porcelain')
+    rc, out = sh(f'git -C {REPO} status --porcelain')
     if out.strip():
-        print('refusing: /repo has uncommitted changes')
+        print(f'refusing: {REPO} has uncommitted changes')
         sys.exit(2)
-    rca, oa = sh(f'git -C /repo apply {d}/patch.diff')
+    rca, oa = sh(f'git -C {REPO} apply {d}/patch.diff')
     try:
         if rca != 0:
             m['check'] = dict(applied=False, note=oa[-300:])
@@ -73,11 +74,11 @@ def run(seed):
             m['check'] = dict(applied=True, exit=rc, caught=bool(rc == 1 and any(l.startswith('VIOLATION') for l in lines)),
                               with_failing_input=any(l.startswith('VIOLATION') and 'no-failing-input-found' not in l for l in lines),
                               lines=lines[:8], wall_s=round(time.time() - t0, 1),
-                              at_verif_commit=sh('git -C /verif rev-parse --short HEAD')[1].strip())
+                              at_verif_commit=sh(f'git -C {V} rev-parse --short HEAD')[1].strip())
     finally:
-        sh('git -C /repo checkout -- .')
-        sh('PYTHONPATH=/repo/src /venv/bin/python /verif/tools/translate.py')      # restore coq/Gen to the unchanged tree
-        sh(f'git -C /verif checkout -- evidence/{prop}.json')                        # evidence of a mutated run is not evidence
+        sh(f'git -C {REPO} checkout -- .')
+        sh(f'PYTHONPATH={REPO}/src VERIF_REPO={REPO} /venv/bin/python {V}/tools/translate.py')      # restore coq/Gen to the unchanged tree
+        sh(f'git -C {V} checkout -- evidence/{prop}.json')                        # evidence of a mutated run is not evidence
     save_meta(seed, m)
     print(seed, m['check'])
 
